@@ -152,7 +152,8 @@ pub fn check(tape: &[u32]) -> CheckResult {
                 let pal = s.effective_palette().unwrap_or_default();
                 let absent: Vec<u8> = (0..=255u8).filter(|i| !pal.contains_key(&(*i as u32))).collect();
                 if !absent.is_empty() {
-                    let a = absent[t.below(absent.len() as u32) as usize];
+                    // the header's transparent index is the most interesting absent index
+                    let a = if absent.contains(&s.transparent) && t.chance(1, 2) { s.transparent } else { absent[t.below(absent.len() as u32) as usize] };
                     'outer: for fr in s.frames.iter_mut() {
                         for c in fr.cels.iter_mut() {
                             if let CelContent::Image { pixels, .. } = &mut c.content {
